@@ -126,10 +126,12 @@ def make_config_units(g, ua):
 
 
 def random_units(rnd, L, lattice_period_units=True):
-    return {"data": rnd.choice(["km/s", "m/s"]), "kprior": rnd.choice(["km/s", "m/s"]),
+    return {"data": rnd.choice(["km/s", "m/s"]), "src_units": [rnd.choice(["km/s", "m/s"]) for _ in range(3)],
+            "kprior": rnd.choice(["km/s", "m/s"]),
             "lin": [rnd.choice(["km/s", "m/s"]) for _ in range(L - 1)], "slope_t": rnd.choice(["d", "yr"]),
             "pprior": rnd.choice(["d", "oct", "suboct"]), "p0": rnd.choice(["d", "yr", "oct"]),
-            "sP": rnd.choice(["d", "yr"]), "sang": rnd.choice(["rad", "deg"]), "ss": rnd.choice(["km/s", "m/s"])}
+            "sP": rnd.choice(["d", "yr"]), "sang": rnd.choice(["rad", "deg"]), "ss": rnd.choice(["km/s", "m/s"]),
+            "t_scale": rnd.choice(["tcb", "utc", "tdb"]), "tref_scale": rnd.choice(["tcb", "utc", "tt"])}
 
 
 # ----------------------------------------------------------------------------------------------- building real objects
@@ -149,10 +151,17 @@ def build(g, ua, jitter_kind="sampled"):
     for j in range(noff + 1):
         idx = [n for n in range(N) if g["lab"][n] == j]
         t = Time(T0 + np.array([g["kk"][n] * g["ph"] for n in idx], dtype=float), format="mjd", scale="tcb")
-        y = (np.array([g["y"][n] for n in idx], dtype=float) * kms).to(du)
-        err = (np.sqrt(np.array([g["sig2"][n] for n in idx], dtype=float)) * kms).to(du)
+        if ua.get("t_scale", "tcb") != "tcb":          # the same instants, handed over on another time scale
+            t = getattr(t, ua["t_scale"])
+        # every source may come in its own velocity unit; the merged data set takes the first source's
+        sdu = du if j == 0 else U(ua.get("src_units", [ua["data"]] * (noff + 1))[j])
+        y = (np.array([g["y"][n] for n in idx], dtype=float) * kms).to(sdu)
+        err = (np.sqrt(np.array([g["sig2"][n] for n in idx], dtype=float)) * kms).to(sdu)
         if noff == 0:
-            srcs.append(RVData(t, y, err, t_ref=Time(T0, format="mjd", scale="tcb")))
+            tref = Time(T0, format="mjd", scale="tcb")
+            if ua.get("tref_scale", "tcb") != "tcb":
+                tref = getattr(tref, ua["tref_scale"])
+            srcs.append(RVData(t, y, err, t_ref=tref))
         else:
             srcs.append(RVData(t, y, err))
     data = srcs[0] if noff == 0 else srcs
@@ -296,7 +305,7 @@ def realize(case):
     samples = None
     if "draw" in fam or "orbit" in fam:
         nl = case.get("nlinear", 2)
-        ev = {"ev": "Draw", "fam": fam.get("draw", "C03"), "Ainv": [], "rhs": [], "covok": False, "ncalls": 0, "size": 0, "nlinear": nl,
+        ev = {"ev": "Draw", "fam": fam.get("draw", "C03"), "tag": "", "covfinite": True, "Ainv": [], "rhs": [], "covok": False, "ncalls": 0, "size": 0, "nlinear": nl,
               "outx": [], "sent": [], "thetasame": False}
         try:
             sg = ScriptedGen(ratio)
@@ -334,8 +343,40 @@ def realize(case):
             ev["exc"] = "%s: %s" % (type(ex).__name__, str(ex)[:160])
         if "draw" in fam:
             events.append(ev)
+    if "draw" in fam and case.get("file_draw", True):
+        # the same draw through the cache-file path: rejection_sample on a one-row library (always accepted), recording
+        # pool; the child generator handed to the draw task is wrapped and reports the (mean, cov, size) it is asked for
+        nl = case.get("nlinear", 2)
+        ev = {"ev": "Draw", "fam": fam["draw"], "path": "file", "tag": "CacheFilePath", "covfinite": True, "Ainv": [], "rhs": [], "covok": False, "ncalls": 0, "size": 0, "nlinear": nl,
+              "outx": [], "sent": [], "thetasame": False}
+        try:
+            from . import collab
+            rec = collab.Recorder()
+            rec.mvn = True
+            gen = collab.RecGen.make(case.get("seed", 0), rec)
+            pool = collab.RecPool(rec, size=1, order_seed=0)
+            jk2 = TheJoker(prior, rng=gen, pool=pool)
+            with np.errstate(all="ignore"):
+                out = jk2.rejection_sample(data, target, n_linear_samples=nl, in_memory=False)
+            mv = [e for e in rec.events if e["ev"] == "Draw" and e["method"] == "mvn"]
+            ev["ncalls"] = len(mv)
+            if mv:
+                ev["size"] = int(mv[0]["size"]) if mv[0]["size"] is not None else 1
+                cov = np.array(mv[0]["cov"], dtype=float)
+                mean = np.array(mv[0]["mean"], dtype=float)
+                ev["covfinite"] = bool(np.all(np.isfinite(cov)) and np.all(np.isfinite(mean)))
+                with np.errstate(all="ignore"):
+                    Ai = np.linalg.inv(cov) if ev["covfinite"] else np.full_like(cov, np.nan)
+                ev["Ainv"] = rmat(Ai * ratio**2, tol=1e-7)
+                ev["rhs"] = rmat((Ai @ mean) * ratio, tol=1e-7)
+                ev["covok"] = True
+            th = np.stack([np.atleast_1d(out[nm].to_value(helper.internal_units[nm])) for nm in helper.packed_order], axis=1)
+            ev["thetasame"] = bool(len(out) == nl and all(np.array_equal(th[j], tchunk[0]) for j in range(len(out))))
+        except Exception as ex:
+            ev["exc"] = "%s: %s" % (type(ex).__name__, str(ex)[:160])
+        events.append(ev)
     if "orbit" in fam and samples is not None and g["noff"] == 0:
-        ev = {"ev": "Orbit", "fam": fam["orbit"], "x": [[101 + k, 1] for k in range(L)], "curve": [], "lnlikeok": False, "bayesok": False,
+        ev = {"ev": "Orbit", "fam": fam["orbit"], "tag": "", "x": [[101 + k, 1] for k in range(L)], "curve": [], "lnlikeok": False, "bayesok": False,
               "bayesspecok": False, "trefsame": False}
         try:
             row0 = samples[0]
@@ -379,6 +420,32 @@ def realize(case):
                 a_s = np.linalg.solve(Ai_s, mu / lam + Mx.T @ (y / var))
                 lnpost_s = float(lnN(x, a_s, np.linalg.inv(Ai_s)))
                 ev["bayesspecok"] = bool(abs((llm - lnlike_phys) - (lnprior - lnpost_s)) <= 1e-6 * max(1.0, abs(llm)))
+        except Exception as ex:
+            ev["exc"] = "%s: %s" % (type(ex).__name__, str(ex)[:160])
+        events.append(ev)
+    if "orbit" in fam and g["noff"] == 0:
+        # a HAND-BUILT row (every column in the sample-side units of this assignment, linear parameters included)
+        ev = {"ev": "Orbit", "fam": fam["orbit"], "tag": "HandBuilt", "x": [[201 + k, 1] for k in range(L)], "curve": [], "lnlikeok": False,
+              "bayesok": True, "bayesspecok": True, "trefsame": True}
+        try:
+            from thejoker import JokerSamples
+            hb = JokerSamples(t_ref=data.t_ref, poly_trend=g["poly"], n_offsets=0)
+            for k in ("P", "e", "omega", "M0", "s"):
+                hb[k] = target[k]
+            names = ["K"] + slot_names
+            for kx, nm in enumerate(names):
+                power = int(nm[1:]) if nm.startswith("v") and not nm.startswith("dv") else 0
+                su = U(ua["kprior"]) if nm == "K" else U(ua["lin"][kx - 1])
+                hb[nm] = (np.array([201.0 + kx]) * kms / u.day ** power).to(su / U(ua["slope_t"]) ** power if power else su)
+            rv = hb.get_orbit(0).radial_velocity(data.t).to_value(kms)
+            ev["curve"] = epochs(rmat(rv))
+            if all(c[1] > 0 for c in ev["curve"]):
+                cur = np.array([c[0] / c[1] for c in ev["curve"]])
+                var = np.array(g["sig2"], dtype=float) + g["s2"]
+                y = np.array(g["y"], dtype=float)
+                want = float(np.sum(-0.5 * (np.log(2 * np.pi * var) + (y - cur) ** 2 / var))) - N * math.log(ratio)
+                got = float(hb.ln_unmarginalized_likelihood(data)[0])
+                ev["lnlikeok"] = bool(abs(got - want) <= 1e-7 + 1e-9 * abs(want))
         except Exception as ex:
             ev["exc"] = "%s: %s" % (type(ex).__name__, str(ex)[:160])
         events.append(ev)
